@@ -770,7 +770,7 @@ def run(run):
     if not getattr(run, '_sharing', False):
         run._sharing = True
         try:
-            _share(run, 'c04', ['DETACH', 'LISTOPS'], 'ATTRSEM')       # deletions and attachments do what the rule says (shared with C04)
+            _share(run, 'c04', ['DETACH', 'LISTOPS', 'ATTACH'], 'ATTRSEM')       # deletions and attachments do what the rule says (shared with C04)
             _share(run, 'c07', ['DRIVERS', 'SIG'], 'PURECONSTRAINT')    # both interpreters execute the specified opcode semantics (shared with C07)
             _share(run, 'c03', ['GIDCLAMP'], 'PRECEDENCE')              # class lookups of the substitutions (shared with C03)
             _share(run, 'c02', ['LOOPLIMIT'], 'PASSORDER')              # the per-pass rule loop and its high-water mark (shared with C02)
